@@ -190,6 +190,13 @@ class Gen:
         rng = self.rng
         for i in range(rng.choice([0, 0, 1, 2, 3])):
             name = rng.choice([b'inbox', b'dir', b'x', b'a-b', b'pathx', b'match-', b'spam']) + (b'%s' % (b'abcdefgh'[i:i + 1]))
+            if self.macros and rng.randrange(3) == 0:
+                # a name that is a proper prefix of an earlier macro's name is a different macro
+                longer = rng.choice(self.macros)
+                cand = longer[:rng.randrange(2, len(longer))] if len(longer) > 2 else name
+                if cand not in (b'match', b'pa', b'pat', b'path', b'al', b'an', b'or', b'ne', b'ol', b'bo', b'da', b'fl', b'st', b'ma', b'mo', b'la', b're', b'ex', b'di', b'br', b'he', b'is', b'co', b'ac', b'cr', b'ad', b'at') \
+                        and not any(sc.startswith(cand) for sc in (b'seconds', b'minutes', b'hours', b'days', b'weeks', b'months', b'years')) and not cand.endswith(b'-'):
+                    name = cand
             if name in self.macros:
                 continue
             self.emit(name, 'macro_name'); self.emit(b'=')
@@ -347,6 +354,12 @@ def _(rng, t, i): t[0:0] = [b'path', b'=', b'"v"']; return t
 def _(rng, t, i): t[0:0] = [b'unusedmacro', b'=', b'"v"']; return t
 @edit('macro-unknown', 'maildir_path')
 def _(rng, t, i): t[i] = t[i][:-1] + b'${nosuchmacro}"'; return t
+@edit('macro-unknown-prefix-of-defined', 'maildir_path')
+def _(rng, t, i):
+    # the reference names a proper prefix (possibly empty) of a macro that is defined and used
+    ref = rng.choice([b'prefixmacr', b'prefix', b'pr', b'p', b''])
+    t[i] = t[i][:-1] + b'${prefixmacro}${' + ref + b'}"'
+    return [b'prefixmacro', b'=', b'"v"'] + t
 @edit('macro-unterminated', 'maildir_path')
 def _(rng, t, i): t[i] = t[i][:-1] + b'${x"'; return t
 @edit('macro-wrong-context', 'maildir_path')
